@@ -819,14 +819,7 @@ impl World {
             let fee = sn.value as u128 - total;
             // highest feerate that can give rise to this fee: floor((fee*1000+999)/weight)
             let x = fee * 1000 + 999;
-            if p.max_fee == u32::MAX as u64 && x >= p.min_fee as u128 * weight {
-                // max_feerate_per_kw = u32::MAX: the clamped estimate can never exceed it (finding C05-S1)
-                if x >= (p.max_fee as u128 + 1) * weight {
-                    self.violation(idx, "accepted-fee-above-u32max-sentinel",
-                        format!("{} commitment {} accepted with fee {} sat on weight {} = {} sat/kw > max_feerate_per_kw = u32::MAX",
-                            who, cm.n, fee, weight, x / weight));
-                }
-            } else if x < p.min_fee as u128 * weight || x >= (p.max_fee as u128 + 1) * weight {
+            if x < p.min_fee as u128 * weight || x >= (p.max_fee as u128 + 1) * weight {
                 self.violation(idx, "accepted-fee-out-of-range",
                     format!("{} commitment {} accepted with fee {} sat on weight {} = {} sat/kw outside [{}, {}]",
                         who, cm.n, fee, weight, x / weight, p.min_fee, p.max_fee));
@@ -1043,12 +1036,7 @@ impl World {
             bad.push(("close-fee-out-of-range", format!("outputs {} exceed the channel value {}", total, sn.value)));
         } else if p.errs(BIT_MUTUAL_FEE) {
             let x = (sn.value as u128 - total) * 1000 + 999;
-            if p.max_fee == u32::MAX as u64 && x >= p.min_fee as u128 * weight {
-                if x >= (p.max_fee as u128 + 1) * weight {
-                    bad.push(("close-fee-above-u32max-sentinel",
-                        format!("fee {} on weight {} = {} sat/kw > max_feerate_per_kw = u32::MAX", sn.value as u128 - total, weight, x / weight)));
-                }
-            } else if x < p.min_fee as u128 * weight || x >= (p.max_fee as u128 + 1) * weight {
+            if x < p.min_fee as u128 * weight || x >= (p.max_fee as u128 + 1) * weight {
                 bad.push(("close-fee-out-of-range",
                     format!("fee {} on weight {} = {} sat/kw outside [{}, {}]", sn.value as u128 - total, weight, x / weight, p.min_fee, p.max_fee)));
             }
